@@ -1,6 +1,1180 @@
+//@ fn ObjectHeader::new
+//@ spec
+    ensures res == (ObjectHeader { size, next, is_empty: false, name_len: name@.len() as usize, data_len: data@.len() as usize }),
+//@ fn ObjectHeader::new_empty
+//@ spec
+    ensures res == (ObjectHeader { size, next, is_empty: true, name_len: 0, data_len: 0 }),
+//@ fn usize_to_u64
+//@ spec
+    ensures res == value,
+//@ fn Archive::min_object_size
+//@ spec
+    requires name_len < lim(), data_len < lim(), ms::<Meta>() < lim(),
+    ensures res == hs() + name_len + ms::<Meta>() + data_len,
+//@ fn Archive::page_object_size
+//@ spec
+    requires name@.len() < lim(), data@.len() < lim(), ms::<Meta>() < lim(),
+    ensures res == page_size(hs() + name@.len() + ms::<Meta>() + data@.len()),
+//@ fn Archive::fits
+//@ spec
+    requires object_size + hs() <= u64::MAX,
+    ensures res == fits_spec(empty_size as int, object_size as int),
+//@ fn Archive::publish_replace
+//@ spec
+    requires
+        wf(*old(self)),
+        name@.len() < lim(), data@.len() < lim(), ms::<Meta>() < lim(),
+        hash == hash_spec(old(self).meta, name@),
+        // the name is not in the archive
+        !has_name(*old(self), name@),
+        // (empty, start) is a block of the empty chain into which the object fits
+        ec(*old(self)).contains(start.v), empty == hdr(old(self).file, start.v),
+        fits_spec(empty.size as int, psize::<Meta>(name@, data@)),
+    ensures
+        final(self).meta == old(self).meta,
+        res is Ok ==> publish_post(*old(self), *final(self), name@, meta.enc(), data@, start.v),
+        res is Ok ==> ({
+            let e0 = ec(*old(self));
+            let rest = e0.remove(e0.index_of(start.v));
+            let rem = (start.v + psize::<Meta>(name@, data@)) as u64;
+            // C26 (2): the reused block leaves the empty chain; what is left of it becomes the new head
+            // of the chain; every other empty block stays on the chain, in order
+            ec(*final(self)) == if empty.size > psize::<Meta>(name@, data@) { seq![rem] + rest } else { rest }
+        }),
+//@ entry
+        let ghost a0 = *self;
+        let ghost e0 = ec(a0);
+        let ghost bs0 = bcs(a0);
+        let ghost s = start.v;
+        let ghost k = e0.index_of(s);
+        let ghost ps = psize::<Meta>(name@, data@);
+        proof {
+            broadcast use hash_in_range;
+            lemma_lay_facts(a0, e0, bs0, Seq::empty());
+            lemma_frame_all();
+            assert(0 <= k < e0.len() && e0[k] == s);
+            assert(member(a0, e0, bs0, Seq::empty(), s));
+        }
+//@ tail
+        proof {
+            assert(self.meta == a0.meta && self.file.size == a0.file.size);
+            let a5 = *self;
+            let h = hash as int;
+            let nl = name.len(); let dl = data.len();
+            let es = hdr(a0.file, s).size;
+            let e1 = e0.remove(k);
+            assert(member(a0, e0, bs0, Seq::empty(), s));
+            assert(block_ok(a0, s));
+            assert(hdr(a0.file, s).next == ptr(e0, k + 1));
+            if k > 0 {
+                assert(member(a0, e0, bs0, Seq::empty(), e0[k - 1]));
+                assert(block_ok(a0, e0[k - 1]));
+                assert(e0[k - 1] != e0[k]);
+                assert(e0[k - 1] + hdr(a0.file, e0[k - 1]).size <= s || s + es <= e0[k - 1]);
+            }
+            assert forall|p: u64| #[trigger] member(a0, e0, bs0, Seq::empty(), p) && p != s && (k > 0 ==> p != e0[k - 1])
+                implies same_obj(a0, a5, p) by {
+                assert(block_ok(a0, p));
+                assert(p + hdr(a0.file, p).size <= s || s + es <= p);
+                if k > 0 { assert(p + hdr(a0.file, p).size <= e0[k - 1] || e0[k - 1] + hdr(a0.file, e0[k - 1]).size <= p); }
+                assert(hdr(a5.file, p) == hdr(a0.file, p));
+            }
+            assert(k > 0 ==> hdr(a5.file, e0[k - 1]) == (ObjectHeader { next: ptr(e0, k + 1), ..hdr(a0.file, e0[k - 1]) }));
+            assert(hdr(a5.file, s) == (ObjectHeader { size: ps as u64, next: bhead(a0, h), is_empty: false, name_len: name@.len() as usize, data_len: data@.len() as usize }));
+            assert(name_at(a5.file, s) == name@ && meta_at(a5.file, s, ms::<Meta>()) == meta.enc() && data_at(a5.file, s, ms::<Meta>()) == data@);
+            assert(forall|b: int| 0 <= b < nb(a0) && b != h ==> #[trigger] slot(a5.file, b) == slot(a0.file, b));
+            assert(slot(a5.file, h) == s);
+            assert(es > ps ==> hdr(a5.file, (s + ps) as u64).size == es - ps && hdr(a5.file, (s + ps) as u64).is_empty);
+            assert(es > ps ==> hdr(a5.file, (s + ps) as u64).next == ptr(e1, 0));
+            assert(es > ps ==> slot(a5.file, nb(a0)) == s + ps);
+            assert(es <= ps ==> slot(a5.file, nb(a0)) == raw(ptr(e1, 0)));
+            assert(replace_summary(a0, *self, name@, meta.enc(), data@, s, k));
+            lemma_replace(a0, *self, name@, meta.enc(), data@, s, k);
+        }
+//@ fn Archive::create_empty
+//@ spec
+    requires
+        // `start` is a block of `size` bytes that has been taken off its chain
+        lay(*old(self), ec(*old(self)), bcs(*old(self)), seq![start]),
+        is_hole(*old(self), start), hdr(old(self).file, start).size == size,
+    ensures
+        final(self).meta == old(self).meta,
+        res is Ok ==> create_empty_post(*old(self), *final(self), start),
+//@ entry
+        let ghost a0 = *self;
+        let ghost e0 = ec(a0);
+        let ghost bs0 = bcs(a0);
+        let ghost hl = seq![start];
+        let ghost n = blk_end(a0, start);
+        proof {
+            broadcast use hash_in_range;
+            lemma_lay_facts(a0, e0, bs0, hl);
+            lemma_frame_all();
+            assert(hl[0] == start);
+            assert(member(a0, e0, bs0, hl, start));
+            assert(block_ok(a0, start));
+            assert(blk_end(a0, start) == a0.file.size || member(a0, e0, bs0, hl, blk_end(a0, start) as u64));
+            if n != a0.file.size {
+                assert(block_ok(a0, n as u64));
+                if hdr(a0.file, n as u64).is_empty {
+                    let kn = e0.index_of(n as u64);
+                    assert(e0.contains(n as u64));
+                    assert(0 <= kn < e0.len() && e0[kn] == n);
+                    assert(spaced_from(e0, kn - 1) || kn == 0);
+                }
+            }
+        }
+//@ tail
+        proof {
+            let a2 = *self;
+            let merged = hdr(a0.file, n as u64).is_empty;
+            let kn = e0.index_of(n as u64);
+            let e1 = if merged { e0.remove(kn) } else { e0 };
+            assert(forall|b: int| 0 <= b < nb(a0) ==> #[trigger] slot(a2.file, b) == slot(a0.file, b));
+            if n == a0.file.size {
+                assert forall|p: u64| #[trigger] member(a0, e0, bs0, hl, p) && p != start implies same_obj(a0, a2, p) by {
+                    assert(block_ok(a0, p));
+                    assert(p + hdr(a0.file, p).size <= start || start + hdr(a0.file, start).size <= p);
+                }
+            } else {
+                if merged && kn > 0 {
+                    assert(member(a0, e0, bs0, hl, e0[kn - 1]));
+                    assert(block_ok(a0, e0[kn - 1]));
+                    assert(e0[kn - 1] != start);
+                    assert(e0[kn - 1] + hdr(a0.file, e0[kn - 1]).size <= start || start + hdr(a0.file, start).size <= e0[kn - 1]);
+                    assert(hdr(a0.file, e0[kn]).next == ptr(e0, kn + 1));
+                }
+                assert forall|p: u64| #[trigger] member(a0, e0, bs0, hl, p) && p != start
+                        && !(merged && (p == n || (kn > 0 && p == e0[kn - 1]))) implies same_obj(a0, a2, p) by {
+                    assert(block_ok(a0, p));
+                    assert(p + hdr(a0.file, p).size <= start || start + hdr(a0.file, start).size <= p);
+                    if merged && kn > 0 {
+                        assert(p + hdr(a0.file, p).size <= e0[kn - 1] || e0[kn - 1] + hdr(a0.file, e0[kn - 1]).size <= p);
+                    }
+                    assert(hdr(a2.file, p) == hdr(a0.file, p));
+                }
+                assert(merged && kn > 0 ==> hdr(a2.file, e0[kn - 1]) == (ObjectHeader { next: ptr(e0, kn + 1), ..hdr(a0.file, e0[kn - 1]) }));
+                assert(hdr(a2.file, start).next == ptr(e1, 0));
+                assert(hdr(a2.file, start).size == hdr(a0.file, start).size + if merged { hdr(a0.file, n as u64).size } else { 0 });
+                assert(slot(a2.file, nb(a0)) == start);
+            }
+            assert(ce_summary(a0, *self, start));
+            lemma_create_empty(a0, *self, start);
+        }
+//@ fn Archive::find_empty
+//@ spec
+    requires
+        wf(*self), name@.len() < lim(), data@.len() < lim(), ms::<Meta>() < lim(),
+    ensures
+        // C26: a block offered for reuse is on the empty chain, comes with its own header, and the object fits
+        res matches Ok(Some(r)) ==> cand_ok(*self, psize::<Meta>(name@, data@), r),
+//@ entry
+        let ghost c = ec(*self);
+        let ghost mut j: int = 0;
+        proof { lemma_lay_facts(*self, c, bcs(*self), Seq::empty()); }
+//@ closure 1
+|obj: &(ObjectHeader, NonZeroU64)| -> (r: u64)
+//@ loop 1
+        invariant
+            0 <= j <= c.len(),
+            start == ptr(c, j),
+            size == psize::<Meta>(name@, data@),
+            forall|i: int| 0 <= i < candidates@.len() ==> cand_ok(*self, size as int, #[trigger] candidates@[i]),
+        decreases c.len() - j,
+//@ loopend 1
+            proof { j = j + 1; }
+//@ fn Archive::find
+//@ spec
+    requires
+        wf(*self), hash == hash_spec(self.meta, name@),
+    ensures
+        // C26 (4): the lookup returns the entry of the name's bucket chain that carries the name, with
+        // its header and its predecessor on the chain; None exactly when no entry carries the name
+        res matches Ok(Some(f)) ==> found_ok(*self, name@, f),
+        res matches Ok(None) ==> !has_name(*self, name@),
+//@ entry
+        let ghost c = bc(*self, hash as int);
+        let ghost mut j: int = 0;
+        proof {
+            broadcast use hash_in_range;
+            assert(bcs(*self)[hash as int] == c);
+            assert(bucket_ok(*self, hash as int, bcs(*self)[hash as int]));
+        }
+//@ loop 1
+        invariant
+            0 <= j <= c.len(),
+            start == ptr(c, j),
+            prev == ptr(c, j - 1),
+            forall|i: int| 0 <= i < j ==> #[trigger] name_at(self.file, c[i]) != name@,
+        decreases c.len() - j,
+//@ loopend 1
+            proof { j = j + 1; }
 //@ fn Archive::unlink_empty
 //@ spec
-    ensures true,
+    requires
+        // the empty chain is intact and `start` is the k-th block on it, `next` its successor
+        is_chain(old(self).file, ehead(*old(self)), ec(*old(self))),
+        ec(*old(self)).contains(start),
+        next == hdr(old(self).file, start).next,
+        chain_inside(*old(self), ec(*old(self))),
+        ec(*old(self)).index_of(start) > 0 ==> spaced_from(ec(*old(self)), ec(*old(self)).index_of(start) - 1),
+        nb(*old(self)) >= 0,
+    ensures
+        final(self).meta == old(self).meta,
+        res is Ok ==> {
+            let k = ec(*old(self)).index_of(start);
+            // C26 (1): afterwards the chain is the old one without `start`, all other blocks still on it
+            &&& is_chain(final(self).file, ehead(*final(self)), ec(*old(self)).remove(k))
+            &&& final(self).file.size == old(self).file.size
+            // frame: only the predecessor's `next` field, or the head slot, was written
+            &&& k > 0 ==> wrote(old(self).file, final(self).file, ec(*old(self))[k - 1] + 8, ec(*old(self))[k - 1] + 16)
+            &&& k > 0 ==> hdr(final(self).file, ec(*old(self))[k - 1])
+                    == (ObjectHeader { next: next, ..hdr(old(self).file, ec(*old(self))[k - 1]) })
+            &&& k == 0 ==> slot(final(self).file, nb(*old(self))) == raw(next)
+            &&& k == 0 ==> wrote(old(self).file, final(self).file, slot_pos(nb(*old(self))), slot_pos(nb(*old(self))) + 8)
+        },
+//@ entry
+        let ghost a0 = *self;
+        let ghost c = ec(a0);
+        let ghost k = c.index_of(start);
+        let ghost mut j: int = 0;
+        proof {
+            assert(0 <= k < c.len() && c[k] == start);
+            lemma_unlink(a0, c, k);
+        }
 //@ loop 1
-        invariant true,
+        invariant
+            *self == a0, a0 == *old(self),
+            is_chain(a0.file, ehead(a0), c), chain_inside(a0, c), k > 0 ==> spaced_from(c, k - 1), nb(a0) >= 0,
+            0 <= k < c.len(), start == Some(NonZeroU64 { v: c[k] }), next == hdr(a0.file, c[k]).next,
+            c == ec(a0), k == c.index_of(c[k]),
+            0 <= j < k,
+            curr == ptr(c, j),
+        decreases c.len() - j,
+//@ loopentry 1
+            proof { lemma_unlink(a0, c, k); }
+//@ loopend 1
+            proof { j = j + 1; }
 //@ global
+// ---- sizes ------------------------------------------------------------------------------------
+// lengths are sums of in-memory lengths; the same domain restriction as the Kani harnesses
+spec fn lim() -> int { 0x100_0000_0000_0000 }
+spec fn page_size(min: int) -> int { ((min + 255) / 256) * 256 }
+spec fn psize<M: ObjectMeta>(name: Seq<u8>, data: Seq<u8>) -> int { page_size(hs() + name.len() + ms::<M>() + data.len()) }
+spec fn fits_spec(e: int, o: int) -> bool { e == o || e >= o + hs() }
+
+// ---- chains ----------------------------------------------------------------------------------
+// c[i] as a stored pointer; None behind the last element.
+spec fn ptr(c: Seq<u64>, i: int) -> Option<NonZeroU64> {
+    if 0 <= i < c.len() { Some(NonZeroU64 { v: c[i] }) } else { None }
+}
+
+// `c` is the list of block positions reached from `head` by following `next`: it ends (acyclic),
+// no position occurs twice, no position is 0.
+spec fn is_chain(s: Storage, head: Option<NonZeroU64>, c: Seq<u64>) -> bool {
+    &&& head == ptr(c, 0)
+    &&& forall|i: int| 0 <= i < c.len() ==> c[i] != 0 && (#[trigger] hdr(s, c[i])).next == ptr(c, i + 1)
+    &&& forall|i: int, j: int| #![trigger c[i], c[j]] 0 <= i < j < c.len() ==> c[i] != c[j]
+}
+
+spec fn nb<M>(a: Archive<M>) -> int { a.meta.bucket_count as int }
+spec fn ehead<M>(a: Archive<M>) -> Option<NonZeroU64> { nz(slot(a.file, nb(a))) }
+spec fn bhead<M>(a: Archive<M>, b: int) -> Option<NonZeroU64> { nz(slot(a.file, b)) }
+// THE empty chain / bucket chain of an archive (unique if there is one: lemma_chain_unique)
+spec fn ec<M>(a: Archive<M>) -> Seq<u64> { choose|c: Seq<u64>| is_chain(a.file, ehead(a), c) }
+spec fn bc<M>(a: Archive<M>, b: int) -> Seq<u64> { choose|c: Seq<u64>| is_chain(a.file, bhead(a, b), c) }
+
+// every block of the chain lies behind the index with its header inside the file
+spec fn chain_inside<M>(a: Archive<M>, c: Seq<u64>) -> bool {
+    forall|i: int| 0 <= i < c.len() ==> data_start(nb(a)) <= #[trigger] c[i] && c[i] + hs() <= a.file.size
+}
+// the header of the j-th block of the chain overlaps no other block's header
+spec fn spaced_from(c: Seq<u64>, j: int) -> bool {
+    forall|i: int| 0 <= i < c.len() && i != j ==> #[trigger] c[i] + hs() <= c[j] || c[j] + hs() <= c[i]
+}
+
+// ---- from bytes to records: a write to [lo, hi) leaves every record outside that range alone ----
+spec fn frame(s1: Storage, s2: Storage, lo: int, hi: int) -> bool {
+    &&& forall|p: u64| p + hs() <= lo || hi <= p ==> #[trigger] hdr(s2, p) == hdr(s1, p)
+    &&& forall|p: u64| (p + hs() + hdr(s1, p).name_len <= lo || hi <= p) ==> #[trigger] name_at(s2, p) == name_at(s1, p)
+    &&& forall|p: u64, ms: int| ms >= 0 && (p + hs() + hdr(s1, p).name_len + ms + hdr(s1, p).data_len <= lo || hi <= p)
+            ==> #[trigger] data_at(s2, p, ms) == data_at(s1, p, ms)
+    &&& forall|p: u64, ms: int| ms >= 0 && (p + hs() + hdr(s1, p).name_len + ms + hdr(s1, p).data_len <= lo || hi <= p)
+            ==> #[trigger] meta_at(s2, p, ms) == meta_at(s1, p, ms)
+    &&& forall|b: int| b >= 0 && (slot_pos(b) + 8 <= lo || hi <= slot_pos(b)) ==> #[trigger] slot(s2, b) == slot(s1, b)
+}
+proof fn lemma_frame(s1: Storage, s2: Storage, lo: int, hi: int)
+    requires wrote(s1, s2, lo, hi),
+    ensures frame(s1, s2, lo, hi),
+{
+    reveal(hdr); reveal(name_at); reveal(meta_at); reveal(data_at); reveal(slot);
+    assert forall|p: u64| p + hs() <= lo || hi <= p implies #[trigger] hdr(s2, p) == hdr(s1, p) by {
+        assert(bytes(s2, p as int, hs()) =~= bytes(s1, p as int, hs()));
+    }
+    assert forall|p: u64| (p + hs() + hdr(s1, p).name_len <= lo || hi <= p) implies #[trigger] name_at(s2, p) == name_at(s1, p) by {
+        assert(bytes(s2, p as int, hs()) =~= bytes(s1, p as int, hs()));
+        assert(bytes(s2, p + hs(), hdr(s1, p).name_len as int) =~= bytes(s1, p + hs(), hdr(s1, p).name_len as int));
+    }
+    assert forall|p: u64, ms: int| ms >= 0 && (p + hs() + hdr(s1, p).name_len + ms + hdr(s1, p).data_len <= lo || hi <= p)
+        implies #[trigger] data_at(s2, p, ms) == data_at(s1, p, ms) by {
+        assert(bytes(s2, p as int, hs()) =~= bytes(s1, p as int, hs()));
+        assert(bytes(s2, p + hs() + hdr(s1, p).name_len + ms, hdr(s1, p).data_len as int)
+            =~= bytes(s1, p + hs() + hdr(s1, p).name_len + ms, hdr(s1, p).data_len as int));
+    }
+    assert forall|p: u64, ms: int| ms >= 0 && (p + hs() + hdr(s1, p).name_len + ms + hdr(s1, p).data_len <= lo || hi <= p)
+        implies #[trigger] meta_at(s2, p, ms) == meta_at(s1, p, ms) by {
+        assert(bytes(s2, p as int, hs()) =~= bytes(s1, p as int, hs()));
+        assert(bytes(s2, p + hs() + hdr(s1, p).name_len, ms) =~= bytes(s1, p + hs() + hdr(s1, p).name_len, ms));
+    }
+    assert forall|b: int| b >= 0 && (slot_pos(b) + 8 <= lo || hi <= slot_pos(b)) implies #[trigger] slot(s2, b) == slot(s1, b) by {
+        assert(bytes(s2, slot_pos(b), 8) =~= bytes(s1, slot_pos(b), 8));
+    }
+}
+proof fn lemma_frame_all()
+    ensures forall|s1: Storage, s2: Storage, lo: int, hi: int| #[trigger] wrote(s1, s2, lo, hi) ==> frame(s1, s2, lo, hi),
+{
+    assert forall|s1: Storage, s2: Storage, lo: int, hi: int| #[trigger] wrote(s1, s2, lo, hi) implies frame(s1, s2, lo, hi) by {
+        lemma_frame(s1, s2, lo, hi);
+    }
+}
+
+// unlinking the k-th block: re-pointing its predecessor (or the head slot) at its successor
+proof fn lemma_unlink<M>(a0: Archive<M>, c: Seq<u64>, k: int)
+    requires is_chain(a0.file, ehead(a0), c), chain_inside(a0, c), 0 <= k < c.len(), nb(a0) >= 0, k > 0 ==> spaced_from(c, k - 1),
+    ensures
+        forall|a2: Archive<M>| #![trigger ehead(a2)]
+            a2.meta == a0.meta && k > 0 && wrote(a0.file, a2.file, c[k - 1] + 8, c[k - 1] + 16)
+            && hdr(a2.file, c[k - 1]) == (ObjectHeader { next: hdr(a0.file, c[k]).next, ..hdr(a0.file, c[k - 1]) })
+            ==> is_chain(a2.file, ehead(a2), c.remove(k)),
+        forall|a2: Archive<M>| #![trigger ehead(a2)]
+            a2.meta == a0.meta && k == 0 && wrote(a0.file, a2.file, slot_pos(nb(a0)), slot_pos(nb(a0)) + 8)
+            && slot(a2.file, nb(a0)) == raw(hdr(a0.file, c[0]).next)
+            ==> is_chain(a2.file, ehead(a2), c.remove(k)),
+{
+    let c2 = c.remove(k);
+    assert forall|a2: Archive<M>| #![trigger ehead(a2)]
+            a2.meta == a0.meta && k > 0 && wrote(a0.file, a2.file, c[k - 1] + 8, c[k - 1] + 16)
+            && hdr(a2.file, c[k - 1]) == (ObjectHeader { next: hdr(a0.file, c[k]).next, ..hdr(a0.file, c[k - 1]) })
+            implies is_chain(a2.file, ehead(a2), c2) by {
+        lemma_frame(a0.file, a2.file, c[k - 1] + 8, c[k - 1] + 16);
+        assert(slot(a2.file, nb(a0)) == slot(a0.file, nb(a0)));
+        assert forall|i: int| 0 <= i < c2.len() implies c2[i] != 0 && (#[trigger] hdr(a2.file, c2[i])).next == ptr(c2, i + 1) by {
+            let i0 = if i < k { i } else { i + 1 };
+            assert(c2[i] == c[i0]);
+            if i0 != k - 1 { assert(hdr(a2.file, c[i0]) == hdr(a0.file, c[i0])); }
+        }
+    }
+    assert forall|a2: Archive<M>| #![trigger ehead(a2)]
+            a2.meta == a0.meta && k == 0 && wrote(a0.file, a2.file, slot_pos(nb(a0)), slot_pos(nb(a0)) + 8)
+            && slot(a2.file, nb(a0)) == raw(hdr(a0.file, c[0]).next)
+            implies is_chain(a2.file, ehead(a2), c2) by {
+        lemma_frame(a0.file, a2.file, slot_pos(nb(a0)), slot_pos(nb(a0)) + 8);
+        assert forall|i: int| 0 <= i < c2.len() implies c2[i] != 0 && (#[trigger] hdr(a2.file, c2[i])).next == ptr(c2, i + 1) by {
+            assert(c2[i] == c[i + 1]);
+            assert(hdr(a2.file, c[i + 1]) == hdr(a0.file, c[i + 1]));
+        }
+    }
+}
+
+// ---- the archive invariant --------------------------------------------------------------------
+// bucket b: a chain of non-empty objects whose names hash to b and are pairwise different
+spec fn bucket_ok<M>(a: Archive<M>, b: int, c: Seq<u64>) -> bool {
+    &&& is_chain(a.file, bhead(a, b), c)
+    &&& forall|i: int| 0 <= i < c.len() ==> !(#[trigger] hdr(a.file, c[i])).is_empty
+    &&& forall|i: int| 0 <= i < c.len() ==> hash_spec(a.meta, #[trigger] name_at(a.file, c[i])) == b
+    &&& forall|i: int, j: int| 0 <= i < j < c.len() ==> #[trigger] name_at(a.file, c[i]) != #[trigger] name_at(a.file, c[j])
+}
+spec fn chains_ok<M>(a: Archive<M>, e: Seq<u64>, bs: Seq<Seq<u64>>) -> bool {
+    &&& 0 < nb(a) < lim()
+    &&& bs.len() == nb(a)
+    &&& is_chain(a.file, ehead(a), e)
+    &&& forall|i: int| 0 <= i < e.len() ==> (#[trigger] hdr(a.file, e[i])).is_empty
+    &&& forall|b: int| 0 <= b < nb(a) ==> bucket_ok(a, b, #[trigger] bs[b])
+}
+// p is the start of a block: it is on the chain its header says it belongs to (or is one of the
+// blocks an operation has taken off a chain and not yet put back: `holes`)
+spec fn member<M>(a: Archive<M>, e: Seq<u64>, bs: Seq<Seq<u64>>, holes: Seq<u64>, p: u64) -> bool {
+    holes.contains(p) || (if hdr(a.file, p).is_empty { e.contains(p) }
+                          else { bs[hash_spec(a.meta, name_at(a.file, p)) as int].contains(p) })
+}
+spec fn block_ok<M: ObjectMeta>(a: Archive<M>, p: u64) -> bool {
+    let h = hdr(a.file, p);
+    &&& data_start(nb(a)) <= p && p + h.size <= a.file.size && h.size >= hs()
+    &&& !h.is_empty ==> rec_len(h, ms::<M>()) <= h.size
+}
+// the first position behind the block at p
+spec fn blk_end<M>(a: Archive<M>, p: u64) -> int { p + hdr(a.file, p).size }
+// C26 layout: the blocks tile the file behind the index without overlap and without gaps
+spec fn tiles<M: ObjectMeta>(a: Archive<M>, e: Seq<u64>, bs: Seq<Seq<u64>>, holes: Seq<u64>) -> bool {
+    &&& data_start(nb(a)) <= a.file.size
+    &&& forall|p: u64| #[trigger] member(a, e, bs, holes, p) ==> block_ok(a, p)
+    &&& forall|p: u64, q: u64| #[trigger] member(a, e, bs, holes, p) && #[trigger] member(a, e, bs, holes, q) && p != q ==>
+            p + hdr(a.file, p).size <= q || q + hdr(a.file, q).size <= p
+    &&& forall|p: u64| member(a, e, bs, holes, p) ==>
+            #[trigger] blk_end(a, p) == a.file.size || member(a, e, bs, holes, blk_end(a, p) as u64)
+    &&& a.file.size == data_start(nb(a)) || member(a, e, bs, holes, data_start(nb(a)) as u64)
+}
+spec fn lay<M: ObjectMeta>(a: Archive<M>, e: Seq<u64>, bs: Seq<Seq<u64>>, holes: Seq<u64>) -> bool {
+    chains_ok(a, e, bs) && tiles(a, e, bs, holes)
+}
+spec fn bcs<M>(a: Archive<M>) -> Seq<Seq<u64>> { Seq::new(nb(a) as nat, |b: int| bc(a, b)) }
+// C26: the archive is consistent
+spec fn wf<M: ObjectMeta>(a: Archive<M>) -> bool { lay(a, ec(a), bcs(a), Seq::empty()) }
+
+// ---- the map view -----------------------------------------------------------------------------
+spec fn bucket_of<M>(a: Archive<M>, name: Seq<u8>) -> Seq<u64> { bc(a, hash_spec(a.meta, name) as int) }
+spec fn has_name<M>(a: Archive<M>, name: Seq<u8>) -> bool {
+    exists|i: int| 0 <= i < bucket_of(a, name).len() && #[trigger] name_at(a.file, bucket_of(a, name)[i]) == name
+}
+// the records of the object at p are the same in both archives
+spec fn same_obj<M: ObjectMeta>(a1: Archive<M>, a2: Archive<M>, p: u64) -> bool {
+    &&& hdr(a2.file, p) == hdr(a1.file, p)
+    &&& !hdr(a1.file, p).is_empty ==> {
+            &&& name_at(a2.file, p) == name_at(a1.file, p)
+            &&& meta_at(a2.file, p, ms::<M>()) == meta_at(a1.file, p, ms::<M>())
+            &&& data_at(a2.file, p, ms::<M>()) == data_at(a1.file, p, ms::<M>())
+        }
+}
+// C26 (3)+(4): publishing adds exactly one entry, at the head of the name's bucket chain, holding
+// exactly (name, meta, data); every other chain and every other object is unchanged
+spec fn publish_post<M: ObjectMeta>(a1: Archive<M>, a2: Archive<M>, name: Seq<u8>, meta: Seq<u8>, data: Seq<u8>, pos: u64) -> bool {
+    let h = hash_spec(a1.meta, name) as int;
+    &&& wf(a2)
+    &&& a2.meta == a1.meta
+    &&& bc(a2, h) == seq![pos] + bc(a1, h)
+    &&& forall|b: int| 0 <= b < nb(a1) && b != h ==> #[trigger] bc(a2, b) == bc(a1, b)
+    &&& name_at(a2.file, pos) == name && meta_at(a2.file, pos, ms::<M>()) == meta && data_at(a2.file, pos, ms::<M>()) == data
+    &&& forall|b: int, i: int| 0 <= b < nb(a1) && 0 <= i < bc(a1, b).len() ==> same_obj(a1, a2, #[trigger] bc(a1, b)[i])
+}
+
+// ---- consequences of the invariant ---------------------------------------------------------------
+proof fn lemma_lay_facts<M: ObjectMeta>(a: Archive<M>, e: Seq<u64>, bs: Seq<Seq<u64>>, holes: Seq<u64>)
+    requires lay(a, e, bs, holes),
+    ensures
+        forall|i: int| 0 <= i < e.len() ==> #[trigger] member(a, e, bs, holes, e[i]),
+        forall|b: int, i: int| 0 <= b < nb(a) && 0 <= i < bs[b].len() ==> #[trigger] member(a, e, bs, holes, bs[b][i]),
+        chain_inside(a, e),
+        forall|b: int| 0 <= b < nb(a) ==> chain_inside(a, #[trigger] bs[b]),
+        forall|j: int| 0 <= j < e.len() ==> #[trigger] spaced_from(e, j),
+{
+    assert forall|i: int| 0 <= i < e.len() implies #[trigger] member(a, e, bs, holes, e[i]) by {
+        assert(hdr(a.file, e[i]).is_empty);
+        assert(e.contains(e[i]));
+    }
+    assert forall|b: int, i: int| 0 <= b < nb(a) && 0 <= i < bs[b].len() implies #[trigger] member(a, e, bs, holes, bs[b][i]) by {
+        assert(bucket_ok(a, b, bs[b]));
+        assert(!hdr(a.file, bs[b][i]).is_empty);
+        assert(hash_spec(a.meta, name_at(a.file, bs[b][i])) == b);
+        assert(bs[b].contains(bs[b][i]));
+    }
+    assert forall|i: int| 0 <= i < e.len() implies data_start(nb(a)) <= #[trigger] e[i] && e[i] + hs() <= a.file.size by {
+        assert(member(a, e, bs, holes, e[i]));
+    }
+    assert forall|b: int| 0 <= b < nb(a) implies chain_inside(a, #[trigger] bs[b]) by {
+        assert forall|i: int| 0 <= i < bs[b].len() implies data_start(nb(a)) <= #[trigger] bs[b][i] && bs[b][i] + hs() <= a.file.size by {
+            assert(member(a, e, bs, holes, bs[b][i]));
+        }
+    }
+    assert forall|j: int| 0 <= j < e.len() implies #[trigger] spaced_from(e, j) by {
+        assert forall|i: int| 0 <= i < e.len() && i != j implies #[trigger] e[i] + hs() <= e[j] || e[j] + hs() <= e[i] by {
+            assert(member(a, e, bs, holes, e[i]));
+            assert(member(a, e, bs, holes, e[j]));
+            if i < j { assert(e[i] != e[j]); } else { assert(e[j] != e[i]); }
+        }
+    }
+}
+
+// what publish_replace has done to the storage, as a relation between the first and the last state
+spec fn replace_summary<M: ObjectMeta>(a0: Archive<M>, a5: Archive<M>, name: Seq<u8>, meta: Seq<u8>, data: Seq<u8>, s: u64, k: int) -> bool {
+    let e0 = ec(a0);
+    let bs0 = bcs(a0);
+    let h = hash_spec(a0.meta, name) as int;
+    let ps = psize::<M>(name, data);
+    let es = hdr(a0.file, s).size;
+    let e1 = e0.remove(k);
+    &&& a5.meta == a0.meta && a5.file.size == a0.file.size
+    // all other blocks are untouched
+    &&& forall|p: u64| #[trigger] member(a0, e0, bs0, Seq::empty(), p) && p != s && (k > 0 ==> p != e0[k - 1]) ==> same_obj(a0, a5, p)
+    // the predecessor on the empty chain skips the reused block
+    &&& k > 0 ==> hdr(a5.file, e0[k - 1]) == (ObjectHeader { next: ptr(e0, k + 1), ..hdr(a0.file, e0[k - 1]) })
+    // the new object
+    &&& hdr(a5.file, s) == (ObjectHeader { size: ps as u64, next: bhead(a0, h), is_empty: false, name_len: name.len() as usize, data_len: data.len() as usize })
+    &&& name_at(a5.file, s) == name && meta_at(a5.file, s, ms::<M>()) == meta && data_at(a5.file, s, ms::<M>()) == data
+    // the index
+    &&& forall|b: int| 0 <= b < nb(a0) && b != h ==> #[trigger] slot(a5.file, b) == slot(a0.file, b)
+    &&& slot(a5.file, h) == s
+    // the remainder
+    &&& es > ps ==> {
+            &&& hdr(a5.file, (s + ps) as u64).size == es - ps && hdr(a5.file, (s + ps) as u64).is_empty
+            &&& hdr(a5.file, (s + ps) as u64).next == ptr(e1, 0)
+            &&& slot(a5.file, nb(a0)) == s + ps
+        }
+    &&& es <= ps ==> slot(a5.file, nb(a0)) == raw(ptr(e1, 0))
+}
+
+// ---- a chain is determined by the storage ---------------------------------------------------------
+proof fn lemma_chain_prefix(s: Storage, head: Option<NonZeroU64>, c1: Seq<u64>, c2: Seq<u64>, i: int)
+    requires is_chain(s, head, c1), is_chain(s, head, c2), 0 <= i <= c1.len(),
+    ensures i <= c2.len(), forall|j: int| 0 <= j < i ==> c1[j] == c2[j],
+    decreases i,
+{
+    if i > 0 {
+        lemma_chain_prefix(s, head, c1, c2, i - 1);
+        if i - 1 == 0 {
+            assert(ptr(c1, 0) == ptr(c2, 0));
+        } else {
+            assert(c1[i - 2] == c2[i - 2]);
+            assert(hdr(s, c1[i - 2]).next == ptr(c1, i - 1));
+            assert(hdr(s, c2[i - 2]).next == ptr(c2, i - 1));
+        }
+        assert(ptr(c1, i - 1) == ptr(c2, i - 1));
+    }
+}
+proof fn lemma_chain_unique(s: Storage, head: Option<NonZeroU64>, c1: Seq<u64>, c2: Seq<u64>)
+    requires is_chain(s, head, c1), is_chain(s, head, c2),
+    ensures c1 == c2,
+{
+    lemma_chain_prefix(s, head, c1, c2, c1.len() as int);
+    lemma_chain_prefix(s, head, c2, c1, c2.len() as int);
+    assert(c1 =~= c2);
+}
+// a layout that satisfies the invariant is THE layout of the archive
+proof fn lemma_lay_is_wf<M: ObjectMeta>(a: Archive<M>, e: Seq<u64>, bs: Seq<Seq<u64>>)
+    requires lay(a, e, bs, Seq::empty()),
+    ensures wf(a), ec(a) == e, bcs(a) == bs,
+{
+    lemma_chain_unique(a.file, ehead(a), e, ec(a));
+    assert forall|b: int| 0 <= b < nb(a) implies bc(a, b) == #[trigger] bs[b] by {
+        assert(bucket_ok(a, b, bs[b]));
+        lemma_chain_unique(a.file, bhead(a, b), bs[b], bc(a, b));
+    }
+    assert(bcs(a) =~= bs);
+}
+
+// the layout after publish_replace
+spec fn replace_e<M: ObjectMeta>(a0: Archive<M>, name: Seq<u8>, data: Seq<u8>, s: u64, k: int) -> Seq<u64> {
+    if hdr(a0.file, s).size > psize::<M>(name, data) { seq![(s + psize::<M>(name, data)) as u64] + ec(a0).remove(k) } else { ec(a0).remove(k) }
+}
+spec fn publish_bs<M>(a0: Archive<M>, name: Seq<u8>, s: u64) -> Seq<Seq<u64>> {
+    let h = hash_spec(a0.meta, name) as int;
+    bcs(a0).update(h, seq![s] + bcs(a0)[h])
+}
+spec fn replace_pre<M: ObjectMeta>(a0: Archive<M>, a5: Archive<M>, name: Seq<u8>, meta: Seq<u8>, data: Seq<u8>, s: u64, k: int) -> bool {
+    &&& wf(a0) && name.len() < lim() && data.len() < lim() && ms::<M>() < lim()
+    &&& !has_name(a0, name)
+    &&& 0 <= k < ec(a0).len() && ec(a0)[k] == s
+    &&& fits_spec(hdr(a0.file, s).size as int, psize::<M>(name, data))
+    &&& replace_summary(a0, a5, name, meta, data, s, k)
+}
+// every block of the old layout other than the reused one is a block of the new layout
+proof fn lemma_replace_transfer<M: ObjectMeta>(a0: Archive<M>, a5: Archive<M>, name: Seq<u8>, meta: Seq<u8>, data: Seq<u8>, s: u64, k: int)
+    requires replace_pre(a0, a5, name, meta, data, s, k),
+    ensures
+        forall|q: u64| #[trigger] member(a0, ec(a0), bcs(a0), Seq::empty(), q) && q != s ==> {
+            &&& member(a5, replace_e(a0, name, data, s, k), publish_bs(a0, name, s), Seq::empty(), q)
+            &&& hdr(a5.file, q).size == hdr(a0.file, q).size && hdr(a5.file, q).is_empty == hdr(a0.file, q).is_empty
+            &&& hdr(a5.file, q).name_len == hdr(a0.file, q).name_len && hdr(a5.file, q).data_len == hdr(a0.file, q).data_len
+            &&& !hdr(a0.file, q).is_empty ==> name_at(a5.file, q) == name_at(a0.file, q)
+        },
+{
+    broadcast use hash_in_range;
+    let e0 = ec(a0); let bs0 = bcs(a0); let e2 = replace_e(a0, name, data, s, k); let bs2 = publish_bs(a0, name, s);
+    let h = hash_spec(a0.meta, name) as int;
+    let e1 = e0.remove(k);
+    assert(hdr(a0.file, e0[k]).is_empty);
+    assert forall|q: u64| #[trigger] member(a0, e0, bs0, Seq::empty(), q) && q != s implies {
+            &&& member(a5, e2, bs2, Seq::empty(), q)
+            &&& hdr(a5.file, q).size == hdr(a0.file, q).size && hdr(a5.file, q).is_empty == hdr(a0.file, q).is_empty
+            &&& hdr(a5.file, q).name_len == hdr(a0.file, q).name_len && hdr(a5.file, q).data_len == hdr(a0.file, q).data_len
+            &&& !hdr(a0.file, q).is_empty ==> name_at(a5.file, q) == name_at(a0.file, q)
+        } by {
+        if k > 0 && q == e0[k - 1] {
+            assert(hdr(a0.file, e0[k - 1]).is_empty);
+        } else {
+            assert(same_obj(a0, a5, q));
+        }
+        if hdr(a0.file, q).is_empty {
+            let i = choose|i: int| 0 <= i < e0.len() && e0[i] == q;
+            let i1 = if i < k { i } else { i - 1 };
+            assert(e1[i1] == q);
+            if hdr(a0.file, s).size > psize::<M>(name, data) { assert(e2[i1 + 1] == q); } else { assert(e2[i1] == q); }
+            assert(e2.contains(q));
+        } else {
+            let x = hash_spec(a0.meta, name_at(a0.file, q)) as int;
+            let i = choose|i: int| 0 <= i < bs0[x].len() && bs0[x][i] == q;
+            if x == h { assert(bs2[x][i + 1] == q); } else { assert(bs2[x][i] == q); }
+            assert(bs2[x].contains(q));
+        }
+    }
+}
+proof fn lemma_replace_echain<M: ObjectMeta>(a0: Archive<M>, a5: Archive<M>, name: Seq<u8>, meta: Seq<u8>, data: Seq<u8>, s: u64, k: int)
+    requires replace_pre(a0, a5, name, meta, data, s, k),
+    ensures
+        is_chain(a5.file, ehead(a5), replace_e(a0, name, data, s, k)),
+        forall|i: int| 0 <= i < replace_e(a0, name, data, s, k).len() ==> (#[trigger] hdr(a5.file, replace_e(a0, name, data, s, k)[i])).is_empty,
+{
+    broadcast use hash_in_range;
+    let e0 = ec(a0); let bs0 = bcs(a0); let e2 = replace_e(a0, name, data, s, k); let bs2 = publish_bs(a0, name, s);
+    let h = hash_spec(a0.meta, name) as int;
+    let ps = psize::<M>(name, data); let es = hdr(a0.file, s).size;
+    let e1 = e0.remove(k);
+    let no = Seq::<u64>::empty();
+    lemma_lay_facts(a0, e0, bs0, no);
+    assert(member(a0, e0, bs0, no, e0[k]));
+    assert(block_ok(a0, s));
+    assert(hdr(a0.file, e0[k]).is_empty);
+    // the empty chain
+    let off = if es > ps { 1int } else { 0int };
+    assert forall|i: int| 0 <= i < e1.len() implies
+        e1[i] != 0 && (#[trigger] hdr(a5.file, e1[i])).next == ptr(e1, i + 1) && hdr(a5.file, e1[i]).is_empty
+        && member(a0, e0, bs0, no, e1[i]) && e1[i] != s by {
+        let i0 = if i < k { i } else { i + 1 };
+        assert(e1[i] == e0[i0]);
+        assert(member(a0, e0, bs0, no, e0[i0]));
+        if i0 < k { assert(e0[i0] != e0[k]); } else { assert(e0[k] != e0[i0]); }
+        assert(hdr(a0.file, e0[i0]).is_empty);
+        assert(hdr(a0.file, e0[i0]).next == ptr(e0, i0 + 1));
+        if i0 == k - 1 { } else { assert(same_obj(a0, a5, e0[i0])); }
+    }
+    assert forall|i: int, j: int| #![trigger e1[i], e1[j]] 0 <= i < j < e1.len() implies e1[i] != e1[j] by {
+        let i0 = if i < k { i } else { i + 1 };
+        let j0 = if j < k { j } else { j + 1 };
+        assert(e0[i0] != e0[j0]);
+    }
+    if es > ps {
+        let r = (s + ps) as u64;
+        assert(e2[0] == r);
+        assert forall|i: int| 0 <= i < e2.len() implies e2[i] != 0 && (#[trigger] hdr(a5.file, e2[i])).next == ptr(e2, i + 1) && hdr(a5.file, e2[i]).is_empty by {
+            if i > 0 { assert(e2[i] == e1[i - 1]); assert(hdr(a5.file, e1[i - 1]).is_empty); }
+        }
+        assert forall|i: int, j: int| #![trigger e2[i], e2[j]] 0 <= i < j < e2.len() implies e2[i] != e2[j] by {
+            assert(e2[j] == e1[j - 1]);
+            if i > 0 { assert(e2[i] == e1[i - 1]); }
+            else {
+                assert(member(a0, e0, bs0, no, e1[j - 1]));
+                assert(block_ok(a0, e1[j - 1]));
+            }
+        }
+    } else {
+        assert(e2 == e1);
+    }
+    assert(is_chain(a5.file, ehead(a5), e2));
+}
+proof fn lemma_replace_chains<M: ObjectMeta>(a0: Archive<M>, a5: Archive<M>, name: Seq<u8>, meta: Seq<u8>, data: Seq<u8>, s: u64, k: int)
+    requires replace_pre(a0, a5, name, meta, data, s, k),
+    ensures chains_ok(a5, replace_e(a0, name, data, s, k), publish_bs(a0, name, s)),
+{
+    broadcast use hash_in_range;
+    let bs2 = publish_bs(a0, name, s);
+    lemma_replace_echain(a0, a5, name, meta, data, s, k);
+    // the bucket chains
+    assert forall|b: int| 0 <= b < nb(a5) implies bucket_ok(a5, b, #[trigger] bs2[b]) by {
+        lemma_replace_bucket(a0, a5, name, meta, data, s, k, b);
+    }
+}
+proof fn lemma_replace_bucket<M: ObjectMeta>(a0: Archive<M>, a5: Archive<M>, name: Seq<u8>, meta: Seq<u8>, data: Seq<u8>, s: u64, k: int, b: int)
+    requires replace_pre(a0, a5, name, meta, data, s, k), 0 <= b < nb(a0),
+    ensures bucket_ok(a5, b, publish_bs(a0, name, s)[b]),
+{
+    broadcast use hash_in_range;
+    let e0 = ec(a0); let bs0 = bcs(a0); let bs2 = publish_bs(a0, name, s);
+    let h = hash_spec(a0.meta, name) as int;
+    let no = Seq::<u64>::empty();
+    lemma_lay_facts(a0, e0, bs0, no);
+    assert(hdr(a0.file, e0[k]).is_empty);
+    let c = bs0[b];
+    assert(bucket_ok(a0, b, c));
+    assert forall|i: int| 0 <= i < c.len() implies
+        c[i] != s && (#[trigger] hdr(a5.file, c[i])) == hdr(a0.file, c[i]) by {
+        assert(member(a0, e0, bs0, no, bs0[b][i]));
+        assert(!hdr(a0.file, c[i]).is_empty);
+        if k > 0 { assert(hdr(a0.file, e0[k - 1]).is_empty); }
+        assert(same_obj(a0, a5, c[i]));
+    }
+    assert forall|i: int| 0 <= i < c.len() implies (#[trigger] name_at(a5.file, c[i])) == name_at(a0.file, c[i]) by {
+        assert(member(a0, e0, bs0, no, bs0[b][i]));
+        assert(!hdr(a0.file, c[i]).is_empty);
+        if k > 0 { assert(hdr(a0.file, e0[k - 1]).is_empty); }
+        assert(same_obj(a0, a5, c[i]));
+    }
+    if b == h {
+        let c2 = bs2[b];
+        assert(c2 == seq![s] + c);
+        assert(bc(a0, h) == c);
+        assert(c2[0] == s);
+        assert forall|i: int| 0 <= i < c2.len() implies c2[i] != 0 && (#[trigger] hdr(a5.file, c2[i])).next == ptr(c2, i + 1)
+            && !hdr(a5.file, c2[i]).is_empty by {
+            if i > 0 {
+                assert(c2[i] == c[i - 1]);
+                assert(hdr(a5.file, c[i - 1]) == hdr(a0.file, c[i - 1]));
+                assert(hdr(a0.file, c[i - 1]).next == ptr(c, i));
+            }
+        }
+        assert forall|i: int| 0 <= i < c2.len() implies hash_spec(a5.meta, #[trigger] name_at(a5.file, c2[i])) == b by {
+            if i > 0 {
+                assert(c2[i] == c[i - 1]);
+                assert(name_at(a5.file, c[i - 1]) == name_at(a0.file, c[i - 1]));
+                assert(hash_spec(a0.meta, name_at(a0.file, c[i - 1])) == b);
+            }
+        }
+        assert forall|i: int, j: int| #![trigger c2[i], c2[j]] 0 <= i < j < c2.len() implies c2[i] != c2[j] by {
+            assert(c2[j] == c[j - 1]);
+            if i > 0 { assert(c2[i] == c[i - 1]); assert(c[i - 1] != c[j - 1]); }
+        }
+        assert forall|i: int, j: int| 0 <= i < j < c2.len() implies #[trigger] name_at(a5.file, c2[i]) != #[trigger] name_at(a5.file, c2[j]) by {
+            assert(c2[j] == c[j - 1]);
+            assert(name_at(a5.file, c[j - 1]) == name_at(a0.file, c[j - 1]));
+            if i > 0 {
+                assert(c2[i] == c[i - 1]);
+                assert(name_at(a5.file, c[i - 1]) == name_at(a0.file, c[i - 1]));
+                assert(name_at(a0.file, c[i - 1]) != name_at(a0.file, c[j - 1]));
+            } else {
+                assert(bucket_of(a0, name)[j - 1] == c[j - 1]);
+            }
+        }
+        assert(is_chain(a5.file, bhead(a5, b), c2));
+    } else {
+        assert(bs2[b] == c);
+        assert forall|i: int| 0 <= i < c.len() implies c[i] != 0 && (#[trigger] hdr(a5.file, c[i])).next == ptr(c, i + 1)
+            && !hdr(a5.file, c[i]).is_empty by {
+            assert(hdr(a0.file, c[i]).next == ptr(c, i + 1));
+        }
+        assert forall|i: int| 0 <= i < c.len() implies hash_spec(a5.meta, #[trigger] name_at(a5.file, c[i])) == b by {
+            assert(hash_spec(a0.meta, name_at(a0.file, c[i])) == b);
+        }
+        assert forall|i: int, j: int| 0 <= i < j < c.len() implies #[trigger] name_at(a5.file, c[i]) != #[trigger] name_at(a5.file, c[j]) by {
+            assert(name_at(a0.file, c[i]) != name_at(a0.file, c[j]));
+        }
+        assert(is_chain(a5.file, bhead(a5, b), c));
+    }
+}
+
+// every block of the new layout is the new object, the remainder, or a block of the old layout
+proof fn lemma_replace_members<M: ObjectMeta>(a0: Archive<M>, a5: Archive<M>, name: Seq<u8>, meta: Seq<u8>, data: Seq<u8>, s: u64, k: int)
+    requires replace_pre(a0, a5, name, meta, data, s, k),
+    ensures
+        forall|p: u64| #[trigger] member(a5, replace_e(a0, name, data, s, k), publish_bs(a0, name, s), Seq::empty(), p) ==> {
+            ||| p == s
+            ||| hdr(a0.file, s).size > psize::<M>(name, data) && p == s + psize::<M>(name, data)
+            ||| member(a0, ec(a0), bcs(a0), Seq::empty(), p)
+        },
+        member(a5, replace_e(a0, name, data, s, k), publish_bs(a0, name, s), Seq::empty(), s),
+        hdr(a0.file, s).size > psize::<M>(name, data) ==>
+            member(a5, replace_e(a0, name, data, s, k), publish_bs(a0, name, s), Seq::empty(), (s + psize::<M>(name, data)) as u64),
+{
+    broadcast use hash_in_range;
+    let e0 = ec(a0); let bs0 = bcs(a0); let e2 = replace_e(a0, name, data, s, k); let bs2 = publish_bs(a0, name, s);
+    let h = hash_spec(a0.meta, name) as int;
+    let ps = psize::<M>(name, data); let es = hdr(a0.file, s).size;
+    let e1 = e0.remove(k);
+    let no = Seq::<u64>::empty();
+    lemma_lay_facts(a0, e0, bs0, no);
+    assert(bs2[h][0] == s);
+    assert(bs2[h].contains(s));
+    if es > ps { assert(e2[0] == (s + ps) as u64); assert(e2.contains((s + ps) as u64)); }
+    assert forall|p: u64| #[trigger] member(a5, e2, bs2, no, p) implies
+        (p == s || (es > ps && p == s + ps) || member(a0, e0, bs0, no, p)) by {
+        if hdr(a5.file, p).is_empty {
+            let i = choose|i: int| 0 <= i < e2.len() && e2[i] == p;
+            let i1 = if es > ps { i - 1 } else { i };
+            if i1 >= 0 {
+                let i0 = if i1 < k { i1 } else { i1 + 1 };
+                assert(e1[i1] == e0[i0]);
+                assert(member(a0, e0, bs0, no, e0[i0]));
+            }
+        } else {
+            let x = hash_spec(a5.meta, name_at(a5.file, p)) as int;
+            let i = choose|i: int| 0 <= i < bs2[x].len() && bs2[x][i] == p;
+            let i0 = if x == h { i - 1 } else { i };
+            if i0 >= 0 {
+                assert(bs2[x][i] == bs0[x][i0]);
+                assert(member(a0, e0, bs0, no, bs0[x][i0]));
+            }
+        }
+    }
+}
+proof fn lemma_replace_tiles<M: ObjectMeta>(a0: Archive<M>, a5: Archive<M>, name: Seq<u8>, meta: Seq<u8>, data: Seq<u8>, s: u64, k: int)
+    requires replace_pre(a0, a5, name, meta, data, s, k),
+    ensures tiles(a5, replace_e(a0, name, data, s, k), publish_bs(a0, name, s), Seq::empty()),
+{
+    let e0 = ec(a0); let bs0 = bcs(a0); let e2 = replace_e(a0, name, data, s, k); let bs2 = publish_bs(a0, name, s);
+    let ps = psize::<M>(name, data); let es = hdr(a0.file, s).size;
+    let no = Seq::<u64>::empty();
+    lemma_lay_facts(a0, e0, bs0, no);
+    lemma_replace_transfer(a0, a5, name, meta, data, s, k);
+    lemma_replace_members(a0, a5, name, meta, data, s, k);
+    assert(member(a0, e0, bs0, no, e0[k]));
+    assert(block_ok(a0, s));
+    let r = (s + ps) as u64;
+    assert(ps >= hs() + name.len() + ms::<M>() + data.len());
+    assert forall|p: u64| #[trigger] member(a5, e2, bs2, no, p) implies block_ok(a5, p) by {
+        if p != s && !(es > ps && p == r) { assert(member(a0, e0, bs0, no, p)); assert(block_ok(a0, p)); }
+    }
+    assert forall|p: u64, q: u64| #[trigger] member(a5, e2, bs2, no, p) && #[trigger] member(a5, e2, bs2, no, q) && p != q implies
+            p + hdr(a5.file, p).size <= q || q + hdr(a5.file, q).size <= p by {
+        let po = p != s && !(es > ps && p == r);
+        let qo = q != s && !(es > ps && q == r);
+        if po { assert(member(a0, e0, bs0, no, p)); assert(block_ok(a0, p)); }
+        if qo { assert(member(a0, e0, bs0, no, q)); assert(block_ok(a0, q)); }
+    }
+    assert forall|p: u64| member(a5, e2, bs2, no, p) implies
+            #[trigger] blk_end(a5, p) == a5.file.size || member(a5, e2, bs2, no, blk_end(a5, p) as u64) by {
+        // the old block whose end is the end of p
+        let p0 = if p == s || (es > ps && p == r) { s } else { p };
+        if !(p == s && es > ps) {
+            assert(member(a0, e0, bs0, no, p0));
+            assert(blk_end(a5, p) == blk_end(a0, p0));
+            if blk_end(a0, p0) != a0.file.size {
+                let q = blk_end(a0, p0) as u64;
+                assert(member(a0, e0, bs0, no, q));
+                assert(block_ok(a0, p0));
+            }
+        }
+    }
+    if a5.file.size != data_start(nb(a5)) {
+        let d = data_start(nb(a0)) as u64;
+        assert(member(a0, e0, bs0, no, d));
+    }
+}
+
+proof fn lemma_replace<M: ObjectMeta>(a0: Archive<M>, a5: Archive<M>, name: Seq<u8>, meta: Seq<u8>, data: Seq<u8>, s: u64, k: int)
+    requires
+        wf(a0), name.len() < lim(), data.len() < lim(), ms::<M>() < lim(),
+        !has_name(a0, name),
+        0 <= k < ec(a0).len(), ec(a0)[k] == s,
+        fits_spec(hdr(a0.file, s).size as int, psize::<M>(name, data)),
+        replace_summary(a0, a5, name, meta, data, s, k),
+    ensures
+        publish_post(a0, a5, name, meta, data, s),
+        ec(a5) == if hdr(a0.file, s).size > psize::<M>(name, data) { seq![(s + psize::<M>(name, data)) as u64] + ec(a0).remove(k) } else { ec(a0).remove(k) },
+{
+    lemma_replace_chains(a0, a5, name, meta, data, s, k);
+    lemma_replace_tiles(a0, a5, name, meta, data, s, k);
+    lemma_lay_is_wf(a5, replace_e(a0, name, data, s, k), publish_bs(a0, name, s));
+    lemma_lay_facts(a0, ec(a0), bcs(a0), Seq::empty());
+    let h = hash_spec(a0.meta, name) as int;
+    broadcast use hash_in_range;
+    assert(bcs(a5)[h] == bc(a5, h));
+    assert forall|b: int| 0 <= b < nb(a0) && b != h implies #[trigger] bc(a5, b) == bc(a0, b) by {
+        assert(bcs(a5)[b] == bc(a5, b));
+        assert(bcs(a0)[b] == bc(a0, b));
+    }
+    assert forall|b: int, i: int| 0 <= b < nb(a0) && 0 <= i < bc(a0, b).len() implies same_obj(a0, a5, #[trigger] bc(a0, b)[i]) by {
+        assert(bcs(a0)[b] == bc(a0, b));
+        assert(member(a0, ec(a0), bcs(a0), Seq::empty(), bcs(a0)[b][i]));
+        assert(bucket_ok(a0, b, bcs(a0)[b]));
+        assert(!hdr(a0.file, bc(a0, b)[i]).is_empty);
+        assert(hdr(a0.file, ec(a0)[k]).is_empty);
+        if k > 0 { assert(hdr(a0.file, ec(a0)[k - 1]).is_empty); }
+    }
+}
+
+// a candidate for reuse: (header, position) of a block on the empty chain into which `size` fits
+spec fn cand_ok<M>(a: Archive<M>, size: int, r: (ObjectHeader, NonZeroU64)) -> bool {
+    ec(a).contains(r.1.v) && r.0 == hdr(a.file, r.1.v) && fits_spec(r.0.size as int, size)
+}
+// what find returns: the i-th entry of the name's bucket chain
+spec fn found_ok<M>(a: Archive<M>, name: Seq<u8>, f: FoundObject) -> bool {
+    let c = bucket_of(a, name);
+    exists|i: int| 0 <= i < c.len() && #[trigger] c[i] == f.start && name_at(a.file, c[i]) == name
+        && f.header == hdr(a.file, c[i]) && f.prev == ptr(c, i - 1)
+}
+// ---- create_empty ----------------------------------------------------------------------------------
+// p is on no chain
+spec fn is_hole<M>(a: Archive<M>, p: u64) -> bool {
+    &&& !ec(a).contains(p)
+    &&& forall|b: int| 0 <= b < nb(a) ==> !(#[trigger] bcs(a)[b]).contains(p)
+}
+// the empty chain after create_empty(start, ..)
+spec fn ce_e<M>(a0: Archive<M>, start: u64) -> Seq<u64> {
+    let n = blk_end(a0, start);
+    if n == a0.file.size { ec(a0) }
+    else if hdr(a0.file, n as u64).is_empty { seq![start] + ec(a0).remove(ec(a0).index_of(n as u64)) }
+    else { seq![start] + ec(a0) }
+}
+// C26 (1): the freed block (merged with an empty right neighbour, which leaves the chain) becomes the
+// head of the empty chain, or the file is cut off in front of it when it was the last block; all other
+// empty blocks stay on the chain in order; all bucket chains and objects are unchanged; the file is tiled
+spec fn create_empty_post<M: ObjectMeta>(a0: Archive<M>, a2: Archive<M>, start: u64) -> bool {
+    &&& wf(a2) && a2.meta == a0.meta
+    &&& ec(a2) == ce_e(a0, start)
+    &&& bcs(a2) == bcs(a0)
+    &&& forall|b: int, i: int| 0 <= b < nb(a0) && 0 <= i < bcs(a0)[b].len() ==> same_obj(a0, a2, #[trigger] bcs(a0)[b][i])
+}
+spec fn ce_summary<M: ObjectMeta>(a0: Archive<M>, a2: Archive<M>, start: u64) -> bool {
+    let e0 = ec(a0); let bs0 = bcs(a0); let hl = seq![start];
+    let n = blk_end(a0, start);
+    let merged = hdr(a0.file, n as u64).is_empty;
+    let kn = e0.index_of(n as u64);
+    let e1 = if merged { e0.remove(kn) } else { e0 };
+    &&& a2.meta == a0.meta
+    &&& forall|b: int| 0 <= b < nb(a0) ==> #[trigger] slot(a2.file, b) == slot(a0.file, b)
+    &&& n == a0.file.size ==> {
+            &&& a2.file.size == start
+            &&& slot(a2.file, nb(a0)) == slot(a0.file, nb(a0))
+            &&& forall|p: u64| #[trigger] member(a0, e0, bs0, hl, p) && p != start ==> same_obj(a0, a2, p)
+        }
+    &&& n != a0.file.size ==> {
+            &&& a2.file.size == a0.file.size
+            &&& forall|p: u64| #[trigger] member(a0, e0, bs0, hl, p) && p != start
+                    && !(merged && (p == n || (kn > 0 && p == e0[kn - 1]))) ==> same_obj(a0, a2, p)
+            &&& merged && kn > 0 ==> hdr(a2.file, e0[kn - 1]) == (ObjectHeader { next: ptr(e0, kn + 1), ..hdr(a0.file, e0[kn - 1]) })
+            &&& hdr(a2.file, start) == (ObjectHeader {
+                    size: (hdr(a0.file, start).size + if merged { hdr(a0.file, n as u64).size } else { 0 }) as u64,
+                    next: ptr(e1, 0), is_empty: true, name_len: 0, data_len: 0 })
+            &&& slot(a2.file, nb(a0)) == start
+        }
+}
+spec fn ce_pre<M: ObjectMeta>(a0: Archive<M>, a2: Archive<M>, start: u64) -> bool {
+    lay(a0, ec(a0), bcs(a0), seq![start]) && is_hole(a0, start) && ce_summary(a0, a2, start)
+}
+// the right neighbour was merged into the freed block
+spec fn ce_merged<M>(a0: Archive<M>, start: u64) -> bool {
+    blk_end(a0, start) != a0.file.size && hdr(a0.file, blk_end(a0, start) as u64).is_empty
+}
+// the right neighbour of the freed block
+proof fn lemma_ce_n<M: ObjectMeta>(a0: Archive<M>, start: u64)
+    requires lay(a0, ec(a0), bcs(a0), seq![start]), is_hole(a0, start),
+    ensures
+        member(a0, ec(a0), bcs(a0), seq![start], start), block_ok(a0, start),
+        blk_end(a0, start) != a0.file.size ==> {
+            let n = blk_end(a0, start) as u64;
+            &&& n == blk_end(a0, start) && n != start
+            &&& member(a0, ec(a0), bcs(a0), seq![start], n) && block_ok(a0, n)
+            &&& hdr(a0.file, n).is_empty ==> ec(a0).contains(n) && 0 <= ec(a0).index_of(n) < ec(a0).len() && ec(a0)[ec(a0).index_of(n)] == n
+        },
+{
+    let hl = seq![start];
+    assert(hl[0] == start);
+    assert(member(a0, ec(a0), bcs(a0), hl, start));
+    assert(block_ok(a0, start));
+    assert(blk_end(a0, start) == a0.file.size || member(a0, ec(a0), bcs(a0), hl, blk_end(a0, start) as u64));
+    if blk_end(a0, start) != a0.file.size {
+        let n = blk_end(a0, start) as u64;
+        assert(block_ok(a0, n));
+        assert(!hl.contains(n));
+    }
+}
+proof fn lemma_ce_bucket<M: ObjectMeta>(a0: Archive<M>, a2: Archive<M>, start: u64, b: int)
+    requires ce_pre(a0, a2, start), 0 <= b < nb(a0),
+    ensures
+        bucket_ok(a2, b, bcs(a0)[b]),
+        forall|i: int| 0 <= i < bcs(a0)[b].len() ==> same_obj(a0, a2, #[trigger] bcs(a0)[b][i]),
+{
+    broadcast use hash_in_range;
+    let e0 = ec(a0); let bs0 = bcs(a0); let hl = seq![start];
+    let n = blk_end(a0, start); let kn = e0.index_of(n as u64);
+    lemma_lay_facts(a0, e0, bs0, hl);
+    let c = bs0[b];
+    assert(bucket_ok(a0, b, c));
+    assert forall|i: int| 0 <= i < c.len() implies same_obj(a0, a2, #[trigger] c[i]) by {
+        assert(member(a0, e0, bs0, hl, bs0[b][i]));
+        assert(!hdr(a0.file, c[i]).is_empty);
+        assert(c.contains(c[i]));
+        if ce_merged(a0, start) && kn > 0 { lemma_ce_n(a0, start); assert(hdr(a0.file, e0[kn - 1]).is_empty); }
+    }
+    assert forall|i: int| 0 <= i < c.len() implies (#[trigger] hdr(a2.file, c[i])) == hdr(a0.file, c[i]) by {
+        assert(same_obj(a0, a2, c[i]));
+    }
+    assert forall|i: int| 0 <= i < c.len() implies (#[trigger] name_at(a2.file, c[i])) == name_at(a0.file, c[i]) by {
+        assert(same_obj(a0, a2, c[i]));
+        assert(!hdr(a0.file, c[i]).is_empty);
+    }
+    assert forall|i: int| 0 <= i < c.len() implies c[i] != 0 && (#[trigger] hdr(a2.file, c[i])).next == ptr(c, i + 1)
+        && !hdr(a2.file, c[i]).is_empty by {
+        assert(hdr(a0.file, c[i]).next == ptr(c, i + 1));
+    }
+    assert forall|i: int| 0 <= i < c.len() implies hash_spec(a2.meta, #[trigger] name_at(a2.file, c[i])) == b by {
+        assert(hash_spec(a0.meta, name_at(a0.file, c[i])) == b);
+    }
+    assert forall|i: int, j: int| 0 <= i < j < c.len() implies #[trigger] name_at(a2.file, c[i]) != #[trigger] name_at(a2.file, c[j]) by {
+        assert(name_at(a0.file, c[i]) != name_at(a0.file, c[j]));
+    }
+    assert(is_chain(a2.file, bhead(a2, b), c));
+}
+proof fn lemma_ce_echain<M: ObjectMeta>(a0: Archive<M>, a2: Archive<M>, start: u64)
+    requires ce_pre(a0, a2, start),
+    ensures
+        is_chain(a2.file, ehead(a2), ce_e(a0, start)),
+        forall|i: int| 0 <= i < ce_e(a0, start).len() ==> (#[trigger] hdr(a2.file, ce_e(a0, start)[i])).is_empty,
+{
+    let e0 = ec(a0); let bs0 = bcs(a0); let hl = seq![start]; let e2 = ce_e(a0, start);
+    let n = blk_end(a0, start); let kn = e0.index_of(n as u64);
+    let merged = ce_merged(a0, start);
+    lemma_lay_facts(a0, e0, bs0, hl);
+    lemma_ce_n(a0, start);
+    let e1 = if merged { e0.remove(kn) } else { e0 };
+    assert forall|i: int| 0 <= i < e1.len() implies
+        e1[i] != 0 && (#[trigger] hdr(a2.file, e1[i])).next == ptr(e1, i + 1) && hdr(a2.file, e1[i]).is_empty && e1[i] != start by {
+        let i0 = if merged && i >= kn { i + 1 } else { i };
+        assert(e1[i] == e0[i0]);
+        assert(e0.contains(e0[i0]));
+        assert(member(a0, e0, bs0, hl, e0[i0]));
+        assert(hdr(a0.file, e0[i0]).is_empty);
+        assert(hdr(a0.file, e0[i0]).next == ptr(e0, i0 + 1));
+        if merged { if i0 < kn { assert(e0[i0] != e0[kn]); } else { assert(e0[kn] != e0[i0]); } }
+        if merged && i0 == kn - 1 { } else { assert(same_obj(a0, a2, e0[i0])); }
+    }
+    assert forall|i: int, j: int| #![trigger e1[i], e1[j]] 0 <= i < j < e1.len() implies e1[i] != e1[j] by {
+        let i0 = if merged && i >= kn { i + 1 } else { i };
+        let j0 = if merged && j >= kn { j + 1 } else { j };
+        assert(e0[i0] != e0[j0]);
+    }
+    if n == a0.file.size {
+        assert(e2 == e1);
+    } else {
+        assert(e2 == seq![start] + e1);
+        assert(e2[0] == start);
+        assert forall|i: int| 0 <= i < e2.len() implies e2[i] != 0 && (#[trigger] hdr(a2.file, e2[i])).next == ptr(e2, i + 1) && hdr(a2.file, e2[i]).is_empty by {
+            if i > 0 { assert(e2[i] == e1[i - 1]); assert(hdr(a2.file, e1[i - 1]).is_empty); }
+            else { assert(member(a0, e0, bs0, hl, start)); assert(block_ok(a0, start)); }
+        }
+        assert forall|i: int, j: int| #![trigger e2[i], e2[j]] 0 <= i < j < e2.len() implies e2[i] != e2[j] by {
+            assert(e2[j] == e1[j - 1]);
+            if i > 0 { assert(e2[i] == e1[i - 1]); }
+        }
+    }
+}
+proof fn lemma_ce_chains<M: ObjectMeta>(a0: Archive<M>, a2: Archive<M>, start: u64)
+    requires ce_pre(a0, a2, start),
+    ensures chains_ok(a2, ce_e(a0, start), bcs(a0)),
+{
+    lemma_ce_echain(a0, a2, start);
+    assert forall|b: int| 0 <= b < nb(a2) implies bucket_ok(a2, b, #[trigger] bcs(a0)[b]) by {
+        lemma_ce_bucket(a0, a2, start, b);
+    }
+}
+proof fn lemma_ce_members<M: ObjectMeta>(a0: Archive<M>, a2: Archive<M>, start: u64)
+    requires ce_pre(a0, a2, start),
+    ensures
+        // old blocks stay blocks, with their sizes
+        forall|q: u64| #[trigger] member(a0, ec(a0), bcs(a0), seq![start], q) && q != start && !(ce_merged(a0, start) && q == blk_end(a0, start)) ==> {
+            &&& member(a2, ce_e(a0, start), bcs(a0), Seq::empty(), q)
+            &&& hdr(a2.file, q).size == hdr(a0.file, q).size && hdr(a2.file, q).is_empty == hdr(a0.file, q).is_empty
+            &&& hdr(a2.file, q).name_len == hdr(a0.file, q).name_len && hdr(a2.file, q).data_len == hdr(a0.file, q).data_len
+        },
+        // new blocks are old blocks or the freed one
+        forall|p: u64| #[trigger] member(a2, ce_e(a0, start), bcs(a0), Seq::empty(), p) ==> {
+            ||| p == start && blk_end(a0, start) != a0.file.size
+            ||| p != start && member(a0, ec(a0), bcs(a0), seq![start], p) && !(ce_merged(a0, start) && p == blk_end(a0, start))
+        },
+        blk_end(a0, start) != a0.file.size ==> member(a2, ce_e(a0, start), bcs(a0), Seq::empty(), start),
+{
+    broadcast use hash_in_range;
+    let e0 = ec(a0); let bs0 = bcs(a0); let hl = seq![start]; let e2 = ce_e(a0, start); let no = Seq::<u64>::empty();
+    let n = blk_end(a0, start); let kn = e0.index_of(n as u64);
+    let merged = ce_merged(a0, start);
+    lemma_lay_facts(a0, e0, bs0, hl);
+    lemma_ce_n(a0, start);
+    let e1 = if merged { e0.remove(kn) } else { e0 };
+    assert(hl[0] == start);
+    assert(member(a0, e0, bs0, hl, start));
+    assert(block_ok(a0, start));
+    if n != a0.file.size { assert(e2[0] == start); assert(e2.contains(start)); }
+    assert forall|q: u64| #[trigger] member(a0, e0, bs0, hl, q) && q != start && !(merged && q == n) implies {
+            &&& member(a2, e2, bs0, no, q)
+            &&& hdr(a2.file, q).size == hdr(a0.file, q).size && hdr(a2.file, q).is_empty == hdr(a0.file, q).is_empty
+            &&& hdr(a2.file, q).name_len == hdr(a0.file, q).name_len && hdr(a2.file, q).data_len == hdr(a0.file, q).data_len
+        } by {
+        assert(!hl.contains(q));
+        if merged && kn > 0 && q == e0[kn - 1] {
+            assert(hdr(a0.file, e0[kn - 1]).is_empty);
+        } else {
+            assert(same_obj(a0, a2, q));
+        }
+        if hdr(a0.file, q).is_empty {
+            let i = choose|i: int| 0 <= i < e0.len() && e0[i] == q;
+            let i1 = if merged && i > kn { i - 1 } else { i };
+            assert(e1[i1] == q);
+            if n != a0.file.size { assert(e2[i1 + 1] == q); } else { assert(e2[i1] == q); }
+            assert(e2.contains(q));
+        }
+    }
+    assert forall|p: u64| #[trigger] member(a2, e2, bs0, no, p) implies
+        ((p == start && n != a0.file.size) || (p != start && member(a0, e0, bs0, hl, p) && !(merged && p == n))) by {
+        if hdr(a2.file, p).is_empty {
+            let i = choose|i: int| 0 <= i < e2.len() && e2[i] == p;
+            let i1 = if n != a0.file.size { i - 1 } else { i };
+            if i1 >= 0 {
+                let i0 = if merged && i1 >= kn { i1 + 1 } else { i1 };
+                assert(e1[i1] == e0[i0]);
+                assert(e0.contains(e0[i0]));
+                assert(member(a0, e0, bs0, hl, e0[i0]));
+                if merged { if i0 < kn { assert(e0[i0] != e0[kn]); } else { assert(e0[kn] != e0[i0]); } }
+            }
+        } else {
+            let x = hash_spec(a2.meta, name_at(a2.file, p)) as int;
+            let i = choose|i: int| 0 <= i < bs0[x].len() && bs0[x][i] == p;
+            assert(bs0[x].contains(p));
+            assert(member(a0, e0, bs0, hl, bs0[x][i]));
+            assert(bucket_ok(a0, x, bs0[x]));
+            assert(!hdr(a0.file, bs0[x][i]).is_empty);
+        }
+    }
+}
+proof fn lemma_ce_tiles<M: ObjectMeta>(a0: Archive<M>, a2: Archive<M>, start: u64)
+    requires ce_pre(a0, a2, start),
+    ensures tiles(a2, ce_e(a0, start), bcs(a0), Seq::empty()),
+{
+    let e0 = ec(a0); let bs0 = bcs(a0); let hl = seq![start]; let e2 = ce_e(a0, start); let no = Seq::<u64>::empty();
+    let n = blk_end(a0, start);
+    let merged = ce_merged(a0, start);
+    lemma_lay_facts(a0, e0, bs0, hl);
+    lemma_ce_members(a0, a2, start);
+    assert(hl[0] == start);
+    assert(member(a0, e0, bs0, hl, start));
+    assert(block_ok(a0, start));
+    assert(blk_end(a0, start) == a0.file.size || member(a0, e0, bs0, hl, blk_end(a0, start) as u64));
+    if n != a0.file.size { assert(block_ok(a0, n as u64)); }
+    assert forall|p: u64| #[trigger] member(a2, e2, bs0, no, p) implies block_ok(a2, p) by {
+        if p != start {
+            assert(member(a0, e0, bs0, hl, p)); assert(block_ok(a0, p));
+            assert(p + hdr(a0.file, p).size <= start || start + hdr(a0.file, start).size <= p);
+        }
+    }
+    assert forall|p: u64, q: u64| #[trigger] member(a2, e2, bs0, no, p) && #[trigger] member(a2, e2, bs0, no, q) && p != q implies
+            p + hdr(a2.file, p).size <= q || q + hdr(a2.file, q).size <= p by {
+        if p != start { assert(member(a0, e0, bs0, hl, p)); assert(block_ok(a0, p)); }
+        if q != start { assert(member(a0, e0, bs0, hl, q)); assert(block_ok(a0, q)); }
+        if merged {
+            if p != start { assert(p + hdr(a0.file, p).size <= n || n + hdr(a0.file, n as u64).size <= p); }
+            if q != start { assert(q + hdr(a0.file, q).size <= n || n + hdr(a0.file, n as u64).size <= q); }
+        }
+    }
+    assert forall|p: u64| member(a2, e2, bs0, no, p) implies
+            #[trigger] blk_end(a2, p) == a2.file.size || member(a2, e2, bs0, no, blk_end(a2, p) as u64) by {
+        // the old block whose end is the end of p
+        let p0 = if p == start && merged { n as u64 } else { p };
+        assert(member(a0, e0, bs0, hl, p0));
+        assert(block_ok(a0, p0));
+        assert(blk_end(a2, p) == blk_end(a0, p0));
+        let q = blk_end(a0, p0);
+        if q != a0.file.size {
+            assert(member(a0, e0, bs0, hl, q as u64));
+            assert(block_ok(a0, q as u64));
+        } else {
+            if n == a0.file.size { assert(p0 + hdr(a0.file, p0).size <= start || start + hdr(a0.file, start).size <= p0); }
+        }
+    }
+    if a2.file.size != data_start(nb(a2)) {
+        let d = data_start(nb(a0)) as u64;
+        if a0.file.size != data_start(nb(a0)) {
+            assert(member(a0, e0, bs0, hl, d));
+            assert(block_ok(a0, d));
+            if merged && d == n { assert(d + hdr(a0.file, d).size <= start || start + hdr(a0.file, start).size <= d); }
+        }
+    }
+}
+proof fn lemma_create_empty<M: ObjectMeta>(a0: Archive<M>, a2: Archive<M>, start: u64)
+    requires
+        lay(a0, ec(a0), bcs(a0), seq![start]), is_hole(a0, start),
+        ce_summary(a0, a2, start),
+    ensures create_empty_post(a0, a2, start),
+{
+    lemma_ce_chains(a0, a2, start);
+    lemma_ce_tiles(a0, a2, start);
+    lemma_lay_is_wf(a2, ce_e(a0, start), bcs(a0));
+    assert forall|b: int, i: int| 0 <= b < nb(a0) && 0 <= i < bcs(a0)[b].len() implies same_obj(a0, a2, #[trigger] bcs(a0)[b][i]) by {
+        lemma_ce_bucket(a0, a2, start, b);
+    }
+}
